@@ -350,6 +350,55 @@ pub fn twin_d(db: &SimDb, k: u8) -> i64 {
     v
 }
 
+// (c) more shapes of "different functions that a key construction could confuse"; all share
+// one body that is parameterised by the shape number
+pub fn twin_x_body(db: &SimDb, shape: u8, k: u8) -> i64 {
+    let key = NKey::TwinX(shape, k);
+    with_tracker(|t| t.enter(key.clone()));
+    let v = bodies::twin_x_value(&Real(db), shape, k);
+    with_tracker(|t| t.exit(&key, v));
+    v
+}
+// shapes 0 and 1: two functions emitted by ONE macro_rules invocation into one module: module
+// path, line and column of the definition site are identical, only the signatures differ
+macro_rules! memo_pair {
+    ($a:ident, $sa:expr, $b:ident, $sb:expr) => {
+        #[memo]
+        pub fn $a(db: &SimDb, k: u8) -> i64 {
+            twin_x_body(db, $sa, k)
+        }
+        #[memo]
+        pub fn $b(db: &SimDb, k: u8) -> i64 {
+            twin_x_body(db, $sb, k)
+        }
+    };
+}
+memo_pair!(twin_x0, 0, twin_x1, 1);
+// shapes 2 and 3: same name and signature in modules `v11` (attribute on line 9) and `v1`
+// (attribute on line 19), same column: "v11" ++ "9" == "v1" ++ "19" for any key construction
+// that concatenates the parts of the definition site without separators
+#[path = "twins/v11.rs"]
+pub mod v11;
+#[path = "twins/v1.rs"]
+pub mod v1;
+const _: () = assert!(v11::MEMO_LINE == 9 && v1::MEMO_LINE == 19, "layout of twins/v11.rs / twins/v1.rs changed");
+// shapes 4 and 5: module paths of equal length differing in the middle
+#[path = "twins/p.rs"]
+pub mod twins_p;
+#[path = "twins/q.rs"]
+pub mod twins_q;
+
+pub fn twin_x(db: &SimDb, shape: u8, k: u8) -> i64 {
+    match shape % 6 {
+        0 => *twin_x0(db, k),
+        1 => *twin_x1(db, k),
+        2 => *v11::twin(db, k),
+        3 => *v1::twin(db, k),
+        4 => *twins_p::x::twin(db, k),
+        _ => *twins_q::x::twin(db, k),
+    }
+}
+
 // ---------------------------------------------------------------------------
 // top-level helpers used by the executor
 // ---------------------------------------------------------------------------
